@@ -211,7 +211,7 @@ Section RecD.
   Proof.
     induction n as [f t0 t1 ks IH] using call_ind'. intros i o dp mx stk ri ou hk Ho Hlen Hwf.
     pose proof (recD_kids ks IH) as HK.
-    apply wf_kids in Hwf. destruct Hwf as (H01 & H1 & _ & Hwk & _).
+    apply wf_kids in Hwf. destruct Hwf as (H01 & H1 & Hwk & _).
     assert (Hl : (length stk < 1024)%nat) by (cbn [height] in Hlen; lia).
     assert (Hlk0 : (length stk + fheight ks <= 1024)%nat) by (cbn [height] in Hlen; unfold fheight; lia).
     assert (Hlk1 : forall F, (length (F :: stk) + fheight ks <= 1024)%nat)
@@ -288,7 +288,7 @@ Lemma shortD c : classD c -> forall n, wf_call (threshold c) n ->
   tprune c (threshold c) n = [] /\ forall dp mx, selD c dp mx n = [].
 Proof.
   intros (Htr & _ & Hcl & _). induction n as [f t0 t1 ks IH] using call_ind'. intros Hwf Hs.
-  apply wf_kids in Hwf. destruct Hwf as (H01 & H1 & _ & Hwk & Hin). cbn [c_t0 c_t1] in Hs.
+  apply wf_kids in Hwf. destruct Hwf as (H01 & H1 & Hwk & Hin). cbn [c_t0 c_t1] in Hs.
   rewrite (tdelta_sub t0 t1) in Hs by lia.
   assert (K : Forall (fun k => tprune c (threshold c) k = [] /\ forall dp mx, selD c dp mx k = []) ks).
   { rewrite Forall_forall in *. intros k Hk. apply (IH k Hk (Hwk k Hk)).
@@ -306,7 +306,7 @@ Proof.
     destruct (q_filter (trig_of c f)) as [[|]|]; try reflexivity; destruct (_ <=? _)%N; reflexivity.
 Qed.
 
-Lemma longD c : classD c -> forall f t0 t1 ks, (threshold c < tdelta t1 t0)%N ->
+Lemma longD c : classD c -> forall f t0 t1 ks, (threshold c <= tdelta t1 t0)%N ->
   tprune c (threshold c) (Call f t0 t1 ks) = [Call f t0 t1 (flat_map (tprune c (threshold c)) ks)].
 Proof.
   intros (Htr & _ & Hcl & _) f t0 t1 ks Hl. destruct (Htr f) as (Ef & _ & _).
@@ -335,8 +335,8 @@ Lemma visD c : classD c -> plt_free_all c -> forall n, visD_stmt c n.
 Proof.
   intros HD Hp. pose proof HD as (Htr & Hfm & Hcl & Hgd & Hlf). induction n as [f t0 t1 ks IH] using call_ind'.
   intros inF dp mx d rd rd' b Hb Hwf. pose proof (visD_kids c ks IH) as HK.
-  pose proof Hwf as Hwf0. apply wf_kids in Hwf. destruct Hwf as (H01 & H1 & Hne & Hwk & _).
-  assert (Hcase : (tdelta t1 t0 < threshold c)%N \/ (threshold c < tdelta t1 t0)%N) by lia.
+  pose proof Hwf as Hwf0. apply wf_kids in Hwf. destruct Hwf as (H01 & H1 & Hwk & _).
+  assert (Hcase : (tdelta t1 t0 < threshold c)%N \/ (threshold c <= tdelta t1 t0)%N) by lia.
   destruct Hcase as [Hs|Hl].
   { destruct (shortD c HD _ Hwf0 Hs) as [E1 E2]. rewrite E1, E2. reflexivity. }
   rewrite (longD c HD f t0 t1 ks Hl).
